@@ -39,7 +39,7 @@ FINDINGS = {
 
 def known_ids():
     import vlib
-    return [f.get('id') for f in vlib.known_findings() if f.get('id')]
+    return [f.get('id') for f in vlib.known_findings() if f.get('id', '').startswith('C03-')]
 
 def run_findings(ctx, exe):
     import shutil
